@@ -304,9 +304,18 @@ def _plots(spec, ctx, g, rng):
     real = pd.DataFrame(rng.normal(size=(n1, 4)), columns=cols)
     synth = pd.DataFrame(rng.normal(size=(n2, 4)) + 1, columns=cols)
     real.iloc[0] = real.iloc[1]            # duplicated rows must be shown twice
+    hostile = int(rng.integers(3))
     for dim, single, both in ((2, vz.scatter_2d, vz.compare_2d), (3, vz.scatter_3d, vz.compare_3d)):
         pick = [str(c) for c in rng.choice(cols, size=dim, replace=False)]
-        for label, columns, r, s in (('columns=list', list(pick), real, synth),
+        rest = [c for c in cols if c not in pick]
+        real_d, synth_d = real.copy(), synth.copy()
+        if hostile == 1:
+            # missing values in a column that is NOT plotted must not hide rows
+            real_d.loc[real_d.index[::3], rest[0]] = np.nan
+        elif hostile == 2:
+            # the synthetic table lacks a column the real one has (not one of the plotted ones)
+            synth_d = synth_d.drop(columns=[rest[0]])
+        for label, columns, r, s in (('columns=list', list(pick), real_d, synth_d),
                                      ('columns=None', None, real[pick], synth[pick])):
             where = {'dim': dim, 'columns': label}
             ok, fig = g.call('visualization.scatter_%dd' % dim, label, single, (r,), {'columns': columns}, compare=True)
